@@ -100,7 +100,7 @@ func account(c *vlib.Ctx, r *recorder) {
 		switch rec["ev"] {
 		case "Begin":
 			begin = rec
-		case "Wire":
+		case "Wire", "Dlv":
 			if rec["k"] == "data" {
 				data++
 			}
